@@ -1,6 +1,7 @@
 import Gv.Sexp
 import Gv.Model.Eval
 import Gv.Driver.Gen
+import Gv.Spec.Structural
 
 namespace Gv.Driver
 open Gv Gv.Sexp Gv.Eval
@@ -115,13 +116,29 @@ def handleEval (req : Sexp) : Sexp :=
       | .basic r => fails.any (fun (f, r') => f == fn && r' == r)
       | _ => false }
     let prog : Program := { conv := gc.conv, methods := ms, sem := sem }
+    let wantSpec := (fieldArgs req "spec").any (fun x => asString x == "structural")
     let outs := (fieldArgs req "calls").map (fun cl =>
       match args cl with
       | name :: vs =>
         match ms.findIdx? (fun m => m.explicit && m.name == sOf name) with
         | some mi =>
           let (vals, _) := vs.foldl (fun (acc : List Val × List (Nat × Val)) y => let (v, m) := valOf acc.2 y; (acc.1 ++ [v], m)) ([], [])
-          mkList "r" [outcomeOut (runMethod prog mi vals)]
+          let out := runMethod prog mi vals
+          let base := mkList "r" [outcomeOut out]
+          if !wantSpec then base else
+          match ms[mi]? with
+          | none => base
+          | some gm =>
+            -- the structural specification of C02 (single source argument, no update)
+            let sp := Spec.specMap gc.conv.env 400 gm.source gm.target (vals.headD .nil)
+            let spOut : Sexp := match sp with
+              | some v => mkList "ok" [(valOut true v).run' {}]
+              | none => mkList "nospec" []
+            let modelErased : Sexp := match out with
+              | .ok v => mkList "ok" [(valOut true v).run' {}]
+              | o => outcomeOut o
+            if Sexp.toString spOut == Sexp.toString modelErased || sp.isNone then base
+            else mkList "r" [outcomeOut out, mkList "specdiff" [.str "structural", spOut]]
         | none => mkList "r" [mkList "stuck" [.str "no such method"]]
       | [] => mkList "r" [mkList "stuck" [.str "bad call"]])
     mkList "ok" outs
